@@ -482,3 +482,88 @@ def replay_c08_fqp_inv(args):
         except Exception as e:
             bad.append((repr(e), a))
     return (len(bad) > 0), "c08_fqp_inv %s: %d mismatches; first %s" % ({k: v for k, v in args.items() if k != "point"}, len(bad), str(bad[:1])[:300])
+
+
+def replay_c08_small_fq(args):
+    """exhaustive concrete run of the field axioms over GF(p), p <= 31, through the real class."""
+    from py_ecc.fields import field_elements as refM, optimized_field_elements as optM
+    Base = (refM if args["impl"] == "ref" else optM).FQ
+    bad = []
+    for p in (2, 3, 5, 7, 11, 13, 17, 19, 23, 29, 31):
+        T = type("SmallFQ", (Base,), {"field_modulus": p})
+        for a in range(p):
+            x = T(a)
+            for e in range(6):
+                if (x ** e).n != pow(a, e, p):
+                    bad.append(("pow", p, a, e))
+            for b in range(p):
+                y = T(b)
+                try:
+                    got = ((x + y).n, (x - y).n, (x * y).n, (x / y).n, (-x).n, (x + (b + p)).n, (x * (b - p)).n, (x / (b + p)).n)
+                except Exception as e:
+                    bad.append((repr(e), p, a, b))
+                    continue
+                bi = pow(b, -1, p) if b else 0
+                exp = ((a + b) % p, (a - b) % p, a * b % p, a * bi % p, -a % p, (a + b) % p, a * b % p, a * bi % p)
+                if got != exp:
+                    bad.append((p, a, b, got, exp))
+    return (len(bad) > 0), "c08_small_fq %s: %d mismatches; first %s" % (args["impl"], len(bad), str(bad[:1])[:200])
+
+
+def replay_c08_small_ext(args):
+    """concrete run of the real FQP subclass over GF(q^d): the solver's model plus an exhaustive sweep
+    of the symbolic positions."""
+    import itertools
+    from py_ecc.fields import field_elements as refM, optimized_field_elements as optM
+    q, f = args["q"], args["f"]
+    d = len(f) - 1
+    mc = tuple(f[:d])
+    if args["impl"] == "ref":
+        Base = refM.FQP
+
+        class T(Base):
+            field_modulus = q
+            degree = d
+
+            def __init__(self, coeffs, modulus_coeffs=None):
+                Base.__init__(self, coeffs, mc)
+    else:
+        Base = optM.FQP
+
+        class T(Base):
+            field_modulus = q
+            degree = d
+            mc_tuples = [(i, c) for i, c in enumerate(mc) if c]
+
+            def __init__(self, coeffs, modulus_coeffs=None):
+                Base.__init__(self, coeffs, mc)
+    fixed = args.get("fixed") or [[0] * d] * 3
+    sym = args.get("sym") or list(range(d))
+    bad = []
+    one = [1] + [0] * (d - 1)
+    elems = []
+    m = args.get("model") or {}
+    if m:
+        elems.append([int(m.get("a%d" % i, fixed[0][i])) % q for i in range(d)])
+    for vals in itertools.islice(itertools.product(range(q), repeat=len(sym)), 3000):
+        e = list(fixed[0])
+        for i, v in zip(sym, vals):
+            e[i] = v
+        elems.append(e)
+    yb = [int(m.get("b%d" % i, fixed[1][i])) % q for i in range(d)]
+    for a in elems:
+        x = T(a)
+        try:
+            xi = x.inv()
+            if any(a):
+                if _ints(x * xi) != one:
+                    bad.append(("x*inv(x)", a))
+                if _ints((T(yb) / x) * x) != [v % q for v in yb]:
+                    bad.append(("(y/x)*x", a))
+            elif _ints(xi) != [0] * d:
+                bad.append(("inv(0)", a))
+            if _ints(x * x * x) != _ints(x ** 3) or _ints(x * T.one()) != [v % q for v in a]:
+                bad.append(("ring", a))
+        except Exception as e:
+            bad.append((repr(e), a))
+    return (len(bad) > 0), "c08_small_ext %s GF(%d^%d): %d mismatches; first %s" % (args["impl"], q, d, len(bad), str(bad[:1])[:200])
